@@ -16,6 +16,10 @@ def num(k, q):
 
 
 def r_num(e):
+    if e["k"] == "nan":
+        return "nan"
+    if e["k"] == "inf":
+        return "inf" if e["q"] > 0 else "(-inf)"
     if e["k"] == "i":
         v = e["q"] // 4
         return str(v) if v >= 0 else "(%d)" % v
@@ -71,6 +75,15 @@ def run(ctx):
     for op in CMP:
         for x, y in itertools.product(nums[::2] + [{"op": "+", "a": [nums[3], nums[15]]}], repeat=2):
             cmps.append((op, x, y))
+    # the documented special floats inf/0 and nan/0 as operands of the comparisons (IEEE: nan is unordered)
+    sp = [num("inf", 1), num("inf", -1), num("nan", 0)]
+    sp += [{"op": "neg", "a": [sp[0]]}, {"op": "neg", "a": [sp[2]]}, {"op": "+", "a": [sp[0], nums[8]]}, {"op": "+", "a": [sp[2], nums[8]]},
+           {"op": "*", "a": [sp[0], nums[1]]}, {"op": "-", "a": [nums[14], sp[0]]}, {"op": "*", "a": [flts[7], sp[2]]}]
+    fin = [nums[0], nums[5], nums[8], flts[2], flts[8]]
+    for op in CMP:
+        for x, y in itertools.product(sp + fin, repeat=2):
+            if x in sp or y in sp:
+                cmps.append((op, x, y))
     cases += [{"id": off + i, "kind": "cmp", "op": op, "xt": render(x), "yt": render(y)} for i, (op, x, y) in enumerate(cmps)]
     off2 = len(cases)
     bets = []
